@@ -240,6 +240,9 @@ def _r7(ctx):
         v = rets[0].value if len(rets) == 1 else phi_of_paths(
             [(f.value if f.kind == "return" else ("raise", f.value if f.value is not None else ("const", None)), list(f.guards))
              for f in fl.facts if f.kind in ("return", "raise") and not f.loops])
+        if v is None:
+            # (a chain that raises in its last arm and returns after the chain: the returns alone form the tree)
+            v = phi_of_paths([(f.value, list(f.guards)) for f in rets])
     if v is None:
         ctx.unrec("R7", "writer", W, f"cannot read the value Reaction.__format__ returns as one decision over the format name ({len(rets)} returns)")
         return
